@@ -3703,7 +3703,7 @@ class mulgrid(object):
         names in the original geometry to lists of corresponding
         column names in the reduced geometry.
         """
-        if columns == []: columns = self.columnlist
+        if columns == []: columns = list(self.columnlist) # (copy, as the column list changes)
         else:
             if isinstance(columns[0], str): columns = [self.column[col] for col in columns]
         colmap = dict([(col.name, self.decompose_column(col.name, chars, spaces))
